@@ -1,5 +1,6 @@
 //! vcheck — property-based checks for sbstp/attohttpc. Usage: vcheck <ID> quick|thorough | vcheck <ID> --replay <path>
 
+mod alloc;
 mod client;
 mod engine;
 mod gen;
@@ -8,6 +9,9 @@ mod refhttp;
 mod transport;
 
 use engine::main_for;
+
+#[global_allocator]
+static GLOBAL: alloc::Counting = alloc::Counting;
 
 fn scrub_env() {
     for name in ["http_proxy", "https_proxy", "all_proxy", "no_proxy"] {
@@ -29,6 +33,8 @@ fn main() {
         "C02" => main_for::<props::c02::C02>(rest),
         "C03" => main_for::<props::c03::C03>(rest),
         "C04" => main_for::<props::c04::C04>(rest),
+        "C05" => main_for::<props::c05::C05>(rest),
+        "C19" => main_for::<props::c19::C19>(rest),
         _ => {
             eprintln!("unknown property {id}");
             2
